@@ -152,6 +152,7 @@ theorem innerAllR_mergeHead (r : Ret) (n : Nat) (rest : List Ret) (acc : Nat) :
     · have : n + k = 0 := by omega
       rw [this]; simp only [Nat.lt_irrefl, if_false, innerAllR, Nat.add_zero]
   | plain => simp only [mergeInner, he, innerAllR]
+  | nonFatalErrorsPtr k => simp only [mergeInner, he, innerAllR]
   | errorsPtr fs => simp only [mergeInner, he, innerAllR]
 
 /-- merging per certificate and then combining is the same as combining the payload results on top of the
@@ -173,6 +174,7 @@ theorem innerAllR_merge (inner : AVal → Ret) : ∀ (xs : List (AVal × Bool)) 
       rw [innerAllR_merge inner xs]
       cases l <;> simp <;> congr 1 <;> omega
     | plain => rfl
+    | nonFatalErrorsPtr k => rfl
     | errorsPtr fs => rfl
 
 theorem countLax_eq (d : Dialect) : ∀ cs : List Bytes, countLax d cs = ((cs.map (certVal d)).filter (·.2)).length
